@@ -169,9 +169,17 @@ CHECKS["C18"] = dict(
     note="Trusted: TLC, harness value comparison. Not decided: date/time/stringformat/floatformat/float (Go formatters, IEEE) - see evidence assumptions.",
     technique="TLA+ reference definitions enumerated by TLC + exhaustive replay through both routes", ref="DESIGN.md §3 C18")
 
+CHECKS["C08"] = dict(
+    text="PongoResolve.tla is the reference resolver: a cursor walk with one rule per step kind (name: method, dereference, field, key; "
+         "index; subscript; call with the call protocol) and the outcomes value / empty / error, checked total (NeverStuck) by TLC over a "
+         "catalogue of 18 roots x all paths of length <=2 x call shapes. Every path is evaluated by the real engine against the same "
+         "catalogue built from real Go values ({{ path }}, {% if path %}, |length), also under a tag-set name that shadows a context key "
+         "while every name additionally exists as a global.",
+    note="Trusted: TLC, the harness's Go catalogue (hand-written to mirror the abstract one). Paths of length <=2; subscripts last; positions inside strings skipped.",
+    technique="TLA+ reference resolver enumerated by TLC + exhaustive replay against a Go value catalogue", ref="DESIGN.md §3 C08")
+
 PENDING = {
     "C01": "in progress: the API outcome machine and the grammar generator are being built; every other check already runs its programs under a no-panic oracle",
-    "C08": "in progress: PongoResolve.tla (cursor walk over catalogue values) is being built",
 }
 
 def main():
